@@ -11,6 +11,9 @@ import (
 	"net"
 	"net/http/httptest"
 	"net/url"
+	"os"
+	"os/exec"
+	"path/filepath"
 	"reflect"
 	"sort"
 	"strings"
@@ -394,6 +397,11 @@ func checkC16() fw.Check {
 				}})
 			}
 			cases = append(cases, fw.Case{ID: "C16/served", Run: func(c *fw.Ctx) { runC16Served(c, c.ID) }})
+			cases = append(cases, fw.Case{ID: "C16/cli-printed", Run: func(c *fw.Ctx) { runC16CLIPrinted(c, c.ID) }})
+			for _, h := range []bool{false, true} {
+				h := h
+				cases = append(cases, fw.Case{ID: fmt.Sprintf("C16/overlapping-identical/http-%v", h), Bubble: true, Run: func(c *fw.Ctx) { runC16Overlapping(c, c.ID, h) }})
+			}
 			// finished documents as RunTraceroute hands them out (simulated wire): every (runs, samples) shape a request can
 			// ask for, including samples only and runs only, reached / unreached destinations
 			for i, qe := range [][2]int{{0, 3}, {1, 0}, {2, 4}, {0, 1}, {3, 0}, {1, 1}, {0, 6}, {3, 3}} {
@@ -448,6 +456,126 @@ func runC16Served(c *fw.Ctx, id string) {
 			}
 			c.Count("served_documents_checked", 1)
 			c.Nontrivial("served/" + proto + "/" + target)
+		}
+	}
+}
+
+// runC16Overlapping: four requests with field-for-field identical parameters overlap on one Traceroute value (what a
+// server does when a scheduler asks for the same path from several workers): every caller gets its own document, all
+// test and run identifiers pairwise distinct.
+func runC16Overlapping(c *fw.Ctx, id string, viaHTTP bool) {
+	resetProcessState()
+	v := refmatch.VariantByName("udp4")
+	target := drive.TargetFor(v, 60+c.Worker)
+	params := traceroute.TracerouteParams{Hostname: target.String(), Port: 33434, Protocol: "udp", MinTTL: 1, MaxTTL: 5, Delay: 10, Timeout: 300 * time.Millisecond,
+		TCPMethod: traceroute.TCPConfigSYN, TracerouteQueries: 2, E2eQueries: 1}
+	env, err := newReqEnv(c, params, target, 33434, false)
+	if err != nil {
+		c.Inconclusive(err.Error())
+		return
+	}
+	defer env.close()
+	env.modelFor = func(k int, e *simEnv) *pathModel { return flowPath(k, e, 4, true, 5*time.Millisecond) }
+	const n = 4
+	docs := make([]*result.Results, n)
+	errs := make([]error, n)
+	tr := traceroute.NewTracerouteWithFetcher(&scriptedFetcher{ip: net.ParseIP("192.0.2.200")})
+	srv := server.NewServer()
+	var wg sync.WaitGroup
+	allocMu.Lock()
+	for i := 0; i < n; i++ {
+		i := i
+		wg.Add(1)
+		go func() {
+			defer wg.Done()
+			time.Sleep(time.Duration(i) * 20 * time.Millisecond) // while the earlier ones are in flight
+			if viaHTTP {
+				q := url.Values{"target": {target.String()}, "protocol": {"udp"}, "port": {"33434"}, "max-ttl": {"5"}, "timeout": {"300"},
+					"traceroute-queries": {"2"}, "e2e-queries": {"1"}}
+				rec := httptest.NewRecorder()
+				srv.TracerouteHandler(rec, httptest.NewRequest("GET", "/traceroute?"+q.Encode(), nil))
+				if rec.Code != 200 {
+					errs[i] = fmt.Errorf("status %d: %s", rec.Code, rec.Body.String())
+					return
+				}
+				d := &result.Results{}
+				errs[i] = json.Unmarshal(rec.Body.Bytes(), d)
+				docs[i] = d
+				return
+			}
+			docs[i], errs[i] = tr.RunTraceroute(context.Background(), params)
+		}()
+	}
+	wg.Wait()
+	allocMu.Unlock()
+	ids := map[string]string{}
+	for i, d := range docs {
+		if errs[i] != nil || d == nil {
+			c.Violate("C16", "overlapping-request-failed", fmt.Sprintf("%s: request %d failed next to identical ones: %v", id, i, errs[i]), nil)
+			return
+		}
+		for j := 0; j < i; j++ {
+			if docs[j] == d {
+				c.Violate("C16", "overlapping-shared-document", fmt.Sprintf("%s: requests %d and %d were handed the same document value", id, j, i), nil)
+			}
+		}
+		note := func(kind, v string) {
+			who := fmt.Sprintf("request %d %s", i, kind)
+			if v == "" {
+				c.Violate("C16", "overlapping-id-empty", fmt.Sprintf("%s: %s is empty", id, who), nil)
+			} else if prev, ok := ids[v]; ok {
+				c.Violate("C16", "overlapping-id-repeated", fmt.Sprintf("%s: %s %q was already given to %s", id, who, v, prev), nil)
+			}
+			ids[v] = who
+		}
+		note("test_run_id", d.TestRunID)
+		for k := range d.Traceroute.Runs {
+			note(fmt.Sprintf("run %d run_id", k), d.Traceroute.Runs[k].RunID)
+		}
+		if len(d.Traceroute.Runs) != 2 {
+			c.Violate("C16", "overlapping-run-count", fmt.Sprintf("%s: request %d returned %d runs", id, i, len(d.Traceroute.Runs)), nil)
+		}
+	}
+	c.Count("overlapping_identical_requests", n)
+	c.Count("ids_checked", len(ids))
+	c.Nontrivial(fmt.Sprintf("overlapping-identical/http%v", viaHTTP))
+}
+
+// runC16CLIPrinted: the document the command line prints (the binary built from the working tree, zero path runs and zero
+// end-to-end probes: no socket is needed) for targets with and without a '%': strict decode, same strings, fresh id.
+func runC16CLIPrinted(c *fw.Ctx, id string) {
+	bin := filepath.Join(os.Getenv("VERIF_BUILD_DIR"), "datadog-traceroute")
+	if _, err := os.Stat(bin); err != nil {
+		c.Inconclusive("no CLI binary (run through ./check)")
+		return
+	}
+	seen := map[string]bool{}
+	for _, target := range []string{"192.0.2.10", "example.org", "fe80::1%eth0", "fe80::3%25", "a%sb%d.example%v", "100%"} {
+		for _, proto := range []string{"udp", "tcp"} {
+			tag := fmt.Sprintf("%s target=%q protocol=%s", id, target, proto)
+			cmd := exec.Command(bin, "-P", proto, "-p", "8080", "-q", "0", "-Q", "0", target)
+			var stdout, stderr bytes.Buffer
+			cmd.Stdout, cmd.Stderr = &stdout, &stderr
+			if err := cmd.Run(); err != nil {
+				continue // whether such a target is accepted is C19's business
+			}
+			body := stdout.Bytes()
+			var doc result.Results
+			dec := json.NewDecoder(bytes.NewReader(body))
+			dec.DisallowUnknownFields()
+			if err := dec.Decode(&doc); err != nil {
+				c.Violate("C16", "printed-json-decode", fmt.Sprintf("%s: the printed document does not decode: %v", tag, err), map[string]any{"stdout": string(body)})
+				continue
+			}
+			if doc.Destination.Hostname != target || doc.Protocol != proto || doc.Destination.Port != 8080 {
+				c.Violate("C16", "printed-values-differ", fmt.Sprintf("%s: the printed document decodes to destination.hostname %q, port %d, protocol %q", tag, doc.Destination.Hostname, doc.Destination.Port, doc.Protocol), map[string]any{"stdout": string(body)})
+			}
+			if doc.TestRunID == "" || seen[doc.TestRunID] {
+				c.Violate("C16", "printed-id-not-fresh", fmt.Sprintf("%s: test_run_id %q is empty or was printed before", tag, doc.TestRunID), nil)
+			}
+			seen[doc.TestRunID] = true
+			c.Count("printed_documents_checked", 1)
+			c.Nontrivial("printed/" + proto + "/" + target)
 		}
 	}
 }
